@@ -8,22 +8,22 @@ TECH = "solver-based symbolic execution of the real go/ssa (symgo) with SMT (z3)
 NOTE = "trusted: go/ssa, the symgo interpreter + environment models (store/codec/math-big as SMT Int), z3; bounds and stubs are listed in checks/<id>.json and repeated in the evidence file"
 
 CLAIMED = {
- "C05": ("DE queue steps (SubmitDEs, DequeueDE, ResetDE, GetAvailableMembers, bounded histories) and assignment / end-block retry / RequestSigning under a fault schedule from an arbitrary DE state: FIFO, each pair handed out at most once and gone afterwards, MaxDESize bound, failed creations leave every queue unchanged", "DESIGN.md §5 C05, §8"),
+ "C05": ("DE queue steps (SubmitDEs, DequeueDE, ResetDE, GetAvailableMembers, bounded histories) and assignment / end-block retry / RequestSigning under a fault schedule from an arbitrary DE state: FIFO, each pair handed out at most once and gone afterwards, MaxDESize bound, failed creations leave every queue unchanged; the signer-side GenerateDEs of cylinder (never returns a pair its store reports as registered) and the tunnel end-block rollback", "DESIGN.md §5 C05, §8"),
  "C19": ("yoda handleTransaction / handleRequest / handleRawRequests / handleRawRequest / GetExecutable with RPC, keyring, executor and file cache as arbitrary-result fakes and all goroutine completion orders: exactly one report message per selected request with one raw report per external id (255 on load/sign/exec failure), passes the chain's report validation, no panic", "DESIGN.md §5 C19, §8"),
- "C11": ("signed payload binding: EncodeSigning layout and injectivity in id/time/content/originator hash, CreateSigning ids never repeat, Direct/Tunnel originator layouts and separation, all nine 4-byte tags equal keccak256(name)[:4] and are pairwise distinct, internal content kinds are refused by RequestSignature, every handler prepends its tag and packs the on-chain values (reference schema written in the harness)", "DESIGN.md §5 C11, §8"),
+ "C11": ("signed payload binding: EncodeSigning layout and injectivity in id/time/content/originator hash, CreateSigning ids never repeat, Direct/Tunnel originator layouts and separation, all nine 4-byte tags equal keccak256(name)[:4] and are pairwise distinct, internal content kinds are refused by RequestSignature, every handler prepends its tag and packs the on-chain values (reference schema written in the harness); the tunnel signing request naming its tunnel, destination and sequence", "DESIGN.md §5 C11, §8"),
  "C12": ("relay proof construction: IAVL inner/leaf op parsing for every varint length, multistore proof positions against a reference RFC-6962 tree over the real store key list, encodeTime against the real gogoproto Timestamp marshalling, the message handed to signature recovery and the relayed vote parts against cometbft's real VoteSignBytes (commit-vote selection, ordering, R/S/V, error propagation; public-key recovery stubbed), header parts recombined as the bridge does against the real Header.Hash() (sha256 uninterpreted)", "DESIGN.md §5 C12, §8"),
  "C18": ("group transition: TransitionGroup / ForceTransitionGroup, the tss callbacks (group creation completed/failed/expired, signing completed/failed/timeout), requests during a transition and the bandtss EndBlocker from an arbitrary transition state: the current group changes only in ExecuteGroupTransition at/after ExecTime from WAITING_EXECUTION, otherwise the transition is dropped; members mirror the incoming group; no reachable panic", "DESIGN.md §5 C18, §8"),
- "C13": ("service fees: oracle CollectFee/feeCollector.Collect over a 2-denom bank (accept iff every cumulative fee stays within limit and balance; exact ledgers; debit never above the limit), bandtss createSigningRequest (fee = fee_per_signer x threshold, escrow, free for authority / no group, fee reject before any transfer, incoming-group request rolled back on failure) and payouts in OnSigningCompleted/OnSigningFailed from an arbitrary escrow state", "DESIGN.md §5 C13, §8"),
- "C14": ("one AllocateTokens step of x/oracle and x/bandtss and the wrapped bank BurnCoins over symbolic fee pools, powers, percentages, community tax and activity flags: exact conservation per denom, inactive participants get nothing, remainders to proposer / community pool, no negative Sub (no panic)", "DESIGN.md §5 C14, §8"),
- "C15": ("oracle Activate / MissReport (exact second+nanosecond arithmetic), the pure feeds CheckMissReport / checkHavePrice kernels with all clocks symbolic, SubmitSignalPrices storing block time, and CalculatePrices deactivating only genuinely missed validators", "DESIGN.md §5 C15, §8"),
+ "C13": ("service fees: oracle CollectFee/feeCollector.Collect over a 2-denom bank (accept iff every cumulative fee stays within limit and balance; exact ledgers; debit never above the limit), bandtss createSigningRequest (fee = fee_per_signer x threshold, escrow, free for authority / no group, fee reject before any transfer, incoming-group request rolled back on failure) and payouts in OnSigningCompleted/OnSigningFailed from an arbitrary escrow state; the tunnel and oracle end-block rollbacks of a failed signing creation", "DESIGN.md §5 C13, §8"),
+ "C14": ("one AllocateTokens step of x/oracle and x/bandtss and the wrapped bank BurnCoins over symbolic fee pools, powers, percentages, community tax and activity flags: exact conservation per denom, inactive participants get nothing, remainders to proposer / community pool, no negative Sub (no panic); the proportional split with 2 always-active voters of arbitrary power, the oracle BeginBlocker with arbitrary block-id flags, and the application's begin-block order (mint < oracle < bandtss < distribution)", "DESIGN.md §5 C14, §8"),
+ "C15": ("oracle Activate / MissReport (exact second+nanosecond arithmetic), the pure feeds CheckMissReport / checkHavePrice kernels with all clocks symbolic, SubmitSignalPrices storing block time, and CalculatePrices deactivating only genuinely missed validators; SetCurrentFeeds stamping every feed-list update with this block's time and height", "DESIGN.md §5 C15, §8"),
  "C16": ("one step of Unstake / Stake / SetLockedPower / DeactivateVault and of the staking hooks (Undelegate, Redelegate, Delegate through AfterDelegationModified / BeforeDelegationRemoved) from an arbitrary restake state: accept iff remaining power >= largest lock of an active vault, exact ledgers, lock index has exactly one entry per lock and orders numerically, deactivated vaults never constrain nor reactivate", "DESIGN.md §5 C16, §8"),
- "C04": ("pkg/tss DKG algebra over the algebraic secp256k1 model: key consistency (group key = sum of a0 commits = image of summed secrets, member keys = image of summed shares), complaint algebra for every dealer/recipient pair of ids 1..3 (DH agreement, decrypt = dealt share, bad share => complaint succeeds, good share => complaint refuted), completeness of the proofs of possession, FindMemberSlot arithmetic for all ids <= 20 and its agreement with the real share placement", "DESIGN.md §5 C04, §8"),
+ "C04": ("pkg/tss DKG algebra over the algebraic secp256k1 model: key consistency (group key = sum of a0 commits = image of summed secrets, member keys = image of summed shares), complaint algebra for every dealer/recipient pair of ids 1..3 (DH agreement, decrypt = dealt share, bad share => complaint succeeds, good share => complaint refuted), completeness of the proofs of possession, FindMemberSlot arithmetic for all ids <= 20 and its agreement with the real share placement; keeper-level DKG state machine (SubmitDKGRound1/2, Complain, Confirm, end-block group processing, a full honest / one-cheater run through the message server), MsgComplain.ValidateBasic (one complainant per message) and a structured forged complaint proof (wrong symmetric key)", "DESIGN.md §5 C04, §8"),
  "C08": ("tunnel packet production: pure kernels GenerateNewPrices/calculateDeviationBPS for all prices and thresholds, one ProduceActiveTunnelPackets end-block step and one TriggerTunnel step through the real keeper from an arbitrary tunnel state (packet iff due and route succeeds, sequence +1, fees charged once, any failure/panic leaves store and balances unchanged)", "DESIGN.md §5 C08, §8"),
- "C17": ("one step of DepositToTunnel / WithdrawFromTunnel / ActivateTunnel / DeactivateTunnel through the real tunnel msg server from an arbitrary deposit state (2 tunnels x 2 depositors x 2 denoms) satisfying the module invariant: accept iff specified, exact ledger deltas, total = sum of records, active flag <=> index, state unchanged on rejection", "DESIGN.md §5 C17, §8"),
+ "C17": ("one step of DepositToTunnel / WithdrawFromTunnel / ActivateTunnel / DeactivateTunnel through the real tunnel msg server from an arbitrary deposit state (2 tunnels x 2 depositors x 2 denoms) satisfying the module invariant: accept iff specified, exact ledger deltas, total = sum of records, active flag <=> index, state unchanged on rejection; genesis export / import round trip of an arbitrary tunnel state", "DESIGN.md §5 C17, §8"),
  "C02": ("PARTIAL. Totality: the begin/end-block code of x/feeds, x/oracle, x/tunnel and x/bandtss executed from arbitrary bounded module states and every parameter set accepted by validation never returns an error or lets a panic escape; determinism: feeds Vote / signal totals under every map iteration order, a static scan of all consensus packages for map ranges, goroutines, select, clocks and randomness whose reviewed allow-list is part of the check (an unreviewed site makes the check exit 2), and every such source reached on a chain-side path of any harness is reported as a VIOLATION. Outside: the Cosmos SDK / CometBFT / IAVL layers, ante handlers, app hash computation, wasm execution (go-owasm FFI)", "DESIGN.md §5 C02, §8.4"),
  "C20": ("PARTIAL. grogu daemon: one real Signaller.Start iteration against the real feeds keeper and gRPC query server followed by the real MsgSubmitSignalPrices handler (whatever grogu decides to submit is accepted by the chain within the stated clock discrepancy), the calculateAssignedTime / filterAndPrepareSignalPrices kernels with all clocks symbolic (a due signal is selected from max(assigned, ts+cooldown+3) on and before the chain's miss deadline, under the stated polling/latency assumption), the real submitPrice under every key / broadcast / tx-query / monitoring outcome with a step clock, and the in-flight set shared by execute and submitPrice over all sequentialised schedules (no signal in two submissions, marks always released, keys returned once). Outside: the float64 isDeviated kernel, broadcastMsg internals, preemptive interleavings", "DESIGN.md §5 C20, §8"),
  "C10": ("signing life cycle in x/tss: SubmitSignature (accepted iff waiting, assigned, signer's account, not yet signed, honest share under the secp256k1 model), HandleSigningEndBlock / EndBlocker with one and two signings, HandleExpiredSignings, aggregation, InitiateNewSigningRound and HandleFailedSigning from arbitrary bounded states with a specification-side mirror: status only WAITING->SUCCESS|FALLEN, expiry exactly at ExpiredHeight <= height, idle members = assigned without a share, retry = attempt+1 <= MaxSigningAttempt with a fresh DRBG committee and fresh DEs, callbacks exactly once in order, interim data deleted", "DESIGN.md §5 C10, §8"),
- "C01": ("one MsgRequestData step (ValidateBasic + PrepareRequest with an arbitrary prepare phase), one MsgReportData step and one oracle EndBlocker step through the real msg server / keeper / abci code from an arbitrary stored oracle state satisfying the module invariant (inductive step): accepted iff authorised, pending trigger exactly at min_count, every pending request resolved once with a result mirroring the request, results immutable, expiry prefix in id order, failed/panicking signing creation rolled back", "DESIGN.md §5 C01"),
+ "C01": ("one MsgRequestData step (ValidateBasic + PrepareRequest with an arbitrary prepare phase), one MsgReportData step and one oracle EndBlocker step through the real msg server / keeper / abci code from an arbitrary stored oracle state satisfying the module invariant (inductive step): accepted iff authorised, pending trigger exactly at min_count, every pending request resolved once with a result mirroring the request, results immutable, expiry prefix in id order, failed/panicking signing creation rolled back; the exactness of a report's external ids over MsgReportData.ValidateBasic + CheckValidReport for 3-4 raw requests", "DESIGN.md §5 C01"),
  "C03": ("one full pkg/tss signing round per enumerated committee over an algebraic secp256k1 model with the real group order: honest shares verify, any other s / R / signer key is rejected, the aggregate verifies under the group key; polynomial, nonces, message and hash outputs symbolic", "DESIGN.md §5 C03"),
  "C09": ("bounded symbolic execution of ChooseOne/ChooseSome/ChooseSomeMaxWeight with every DRBG draw symbolic: size, range, distinctness and equality with an independent sampling-without-replacement reference", "DESIGN.md §5 C09"),
  "C06": ("MedianValidatorPriceInfos against an order-free reference written from the README and a relational oracle (non-AVAILABLE entries have no influence), CalculatePricesPowers, the CalculatePrice status rule, and CalculatePrices over the staking fake; all statuses, powers < 2^64, prices and timestamps of up to n entries (n in checks/C06.json)", "DESIGN.md §5 C06"),
